@@ -5,6 +5,7 @@ fn main() {
     let args = Args::parse();
     let code = match args.engine.as_str() {
         "C05" => engines::c05::main(&args),
+        "C06" => engines::c06::main(&args),
         "C28" => engines::c28::main(&args),
         other => {
             eprintln!("unknown engine {other}");
